@@ -187,6 +187,44 @@ class Gen:
         return ('cmp', '==', ('attr', 'a'), ('int', 1))
 
 
+class ExtGen(Gen):
+    """constructs OUTSIDE the hypothesis set of C01_cond (differential oracle only)"""
+    def __init__(self, rng):
+        Gen.__init__(self, rng, 'ext')
+
+    def cond(self, d, no_int_test=False):
+        r = self.rng
+        k = r.random()
+        if d > 0 and k < 0.10:      # a condition used as an operand of a comparison
+            c = Gen.cond(self, d - 1)
+            v = self.val('bool', d - 1, True)
+            op = r.choice(['==', '!=', '==', '<'])
+            return ('cmp', op, v, c) if r.random() < 0.6 else ('cmp', op, c, v)
+        if d > 0 and k < 0.18:      # not over anything
+            return ('not', self.cond(d - 1))
+        if k < 0.24:                # pat not in <possibly missing string>
+            return ('like', 'contains', True, r.choice(STR_CONSTS), self.val('str', d - 1, True))
+        if k < 0.28:                # a number compared with a string
+            return ('cmp', r.choice(['==', '!=']), self.val('int', d - 1, True), self.val('str', d - 1, True))
+        if k < 0.31:                # x in (items of another type)
+            return ('in', r.random() < 0.4, self.val(r.choice(['int', 'bool']), d - 1, True), [r.choice([0, 1, '1', 'a', True])])
+        if k < 0.34:                # None in odd places
+            return ('cmp', r.choice(['<', '>=']), self.val('int', d - 1, True), ('none',))
+        if k < 0.37:                # ill-typed
+            return ('cmp', '==', ('bin', r.choice(['+', '-']), self.val('int', d - 1, True), self.val('str', d - 1, True)), ('int', 1))
+        return Gen.cond(self, d, no_int_test)
+
+    def val(self, ty, d, want_attr=False):
+        r = self.rng
+        if ty == 'int' and d > 0:
+            k = r.random()
+            if k < 0.06: return ('bin', r.choice(['+', '*']), self.val('bool', d - 1, True), self.val('bool', d - 1, True))
+            if k < 0.10: return (r.choice(['neg', 'abs']), self.val('bool', d - 1, True))
+            if k < 0.14: return ('ite', self.val('int', d - 1, True), self.val('int', d - 1, True), self.val('int', d - 1))   # int test: AttributeError
+            if k < 0.18: return ('ite', self.cond(d - 1, True), self.val('int', d - 1, True), self.val('bool', d - 1, True))   # mixed branches
+        return Gen.val(self, ty, d, want_attr)
+
+
 def never_null(e):
     k = e[0]
     if k == 'attr': return not ATTRS[e[1]][1]
